@@ -37,6 +37,8 @@ func variantByName(world, name string) (Variant, bool) {
 		return simrunPurego, true
 	case "asm-v3":
 		return simrunAsmV3, true
+	case asmCPUOff:
+		return simrunAsm, true
 	case "asm-go1.26":
 		return simStall, true
 	}
